@@ -43,6 +43,13 @@ class DirectElem(Elem):
             for s in st.body:
                 self.stmt(s)
             return
+        if isinstance(t, ast.Compare) and len(t.ops) == 1 and isinstance(t.ops[0], (ast.Is, ast.IsNot)) and isinstance(t.left, ast.Name) \
+                and isinstance(t.comparators[0], ast.Constant) and t.comparators[0].value is None and t.left.id in self.env:
+            # a private keyword left at its default None (or given): decided by what it is bound to here
+            isnone = self.env[t.left.id] is None
+            for s in (st.body if isnone == isinstance(t.ops[0], ast.Is) else st.orelse):
+                self.stmt(s)
+            return
         super().on_if(st)
 
     def mask_of(self, sl):
@@ -139,14 +146,24 @@ def run_direct(repo, R):
     for f in (fd, sd, top):
         R.note_function(f.qualname)
 
+    extra_defaults = {}
+
     def run_helper(f):
         p = f.params
-        if len(p) != 5:
+        a_ = f.node.args
+        n_def = len(a_.defaults)
+        extras = p[5:]
+        defaults = dict(zip([z.arg for z in a_.args][len(a_.args) - n_def:], a_.defaults)) if n_def else {}
+        if len(p) < 5 or not all(q in defaults and isinstance(defaults[q], ast.Constant) and defaults[q].value is None for q in extras):
             raise AnalysisError("FORMULA", f"signature of {f.name} changed", f.where())
         env = {p[0]: x, p[1]: g, p[2]: sp.Symbol("MASK"), p[3]: n, p[4]: a}
+        for q in extras:
+            env[q] = None  # private keyword at its default: the helper computes the quantity itself
         E = DirectElem(f, env, rule="FORMULA")
         E.repo = repo
         E.run()
+        # what the helper computes for each private keyword when it is not given: a caller that passes one must pass exactly this
+        extra_defaults[f.name] = {q: E.env.get(q) for q in extras}
         if len(E.returns) != 1:
             raise AnalysisError("FORMULA", f"{f.name}: expected one return", f.where())
         E.check_not_opaque(E.returns[0][1], E.returns[0][0])
@@ -242,7 +259,40 @@ def run_direct(repo, R):
     class TopElem(DirectElem):
         pass
 
-    handlers = {fd.name: lambda interp, call: F1, sd.name: lambda interp, call: F2}
+    site_findings = []
+
+    def helper_site(sym, f_):
+        def h(interp, call):
+            # the helper's parameters must receive the shifted coordinate, its Gaussian, (the mask), the component exponents and the
+            # exponents of this very call; a private keyword must receive what the helper would compute itself
+            sh = cx - ctr
+            want = [sh, sp.exp(-a * sh ** 2), None, n, a]
+            for k_, (arg, w) in enumerate(zip(call.args, want)):
+                if w is None:
+                    continue
+                try:
+                    got = interp.expr(arg)
+                except AnalysisError:
+                    continue
+                if not hasattr(got, "free_symbols") or sp.simplify(got - w) != 0:
+                    site_findings.append((call, f"argument {k_} (`{f_.params[k_]}`) of {f_.name} receives `{ast.unparse(arg)[:50]}` = {got}", str(w)))
+            for kw_ in call.keywords:
+                dflt = extra_defaults.get(f_.name, {}).get(kw_.arg)
+                if dflt is None:
+                    site_findings.append((call, f"keyword `{kw_.arg}` of {f_.name} is not one of its private pre-computed quantities", ""))
+                    continue
+                w = dflt.subs({x: sh, g: sp.exp(-a * sh ** 2)}, simultaneous=True)
+                try:
+                    got = interp.expr(kw_.value)
+                except AnalysisError:
+                    continue
+                if not hasattr(got, "free_symbols") or sp.simplify(got - w) != 0:
+                    site_findings.append((call, f"private keyword `{kw_.arg}` of {f_.name} receives `{ast.unparse(kw_.value)[:50]}` = {got}, but the helper "
+                                                f"computes {w} when it is not given", str(w)))
+            return sym
+        return h
+
+    handlers = {fd.name: helper_site(F1, fd), sd.name: helper_site(F2, sd)}
     E = TopElem(top, {p[0]: cx, p[1]: sp.Symbol("orders"), p[2]: ctr, p[3]: n, p[4]: a, p[5]: cc, p[6]: cnorm},
                 handlers=handlers, rule="FORMULA", attr_symbols={})
     E.lenient = True
@@ -255,6 +305,14 @@ def run_direct(repo, R):
         raise AnalysisError("FORMULA", "direct back-end: expected one return", top.where())
     out = E.returns[0][1]
     E.check_not_opaque(out, E.returns[0][0])
+    seen_sites = set()
+    for call, msg, want_ in site_findings:
+        if (id(call), msg) in seen_sites:
+            continue
+        seen_sites.add((id(call), msg))
+        R.fail("DIRECT", top.site, ast.unparse(call)[:90], msg + ": the derivative factor is then that of another function", where=top.where(call), expected=want_)
+    if not site_findings:
+        R.ok("DIRECT", top.site, f"{len(calls)} helper call sites receive the shifted coordinate, its Gaussian, the exponents of the same call")
     run_direct.last_combination = (out, cx, ctr)
     shifted = cx - ctr
     zeroth = Prod(shifted ** n * sp.exp(-a * shifted ** 2))
